@@ -97,4 +97,73 @@ namespace GeographicLib {
 
   const char* const FixtureShared::alpha_ = "ABCD";
 
+  // S2: the convergence loses its hemisphere sign; D1: SetScale rescales _k0 but not the derived _nrho0
+  class FixtureConic {
+  public:
+    typedef Math::real real;
+    FixtureConic(real k0, bool south) : _sign(south ? -1 : 1), _k0(k0), _nrho0(3 * _k0) {}
+    void Forward(real lon0, real lat, real lon, real& x, real& y, real& gamma, real& k) const {
+      real sphi, cphi;
+      Math::sincosd(Math::LatFix(lat) * _sign, sphi, cphi);
+      real theta = (lon - lon0) * sphi;
+      x = _nrho0 * std::sin(theta);
+      y = _nrho0 * (1 - std::cos(theta)) - cphi;
+      y *= _sign;
+      gamma = theta;                 // should be _sign * theta
+      k = _k0;
+    }
+    void SetScale(real k) { _k0 *= k; }
+  private:
+    real _sign, _k0, _nrho0;
+  };
+
+  // I1: a scratch value needed for the potential is overwritten while computing the gradient
+  // DSP: the SCHMIDT arm instantiates the FULL engine
+  class FixtureHarm {
+  public:
+    typedef Math::real real;
+    enum normalization { FULL = 0, SCHMIDT = 1 };
+    template<bool gradp, normalization norm, int L>
+    static real Engine(const real c[], real x, real& gx) { gx = gradp ? c[0] * norm : 0; return c[L - 1] * x; }
+    FixtureHarm() : _norm(FULL) { _c[0] = 1; }
+    real T(real x, real y, real& dx, bool gradp) const {
+      real invR = 1 / std::hypot(x, y), t = x * y;
+      if (gradp) {
+        invR = invR * invR * invR;
+        dx = x * invR;
+      }
+      return t * invR;
+    }
+    real Value(real x) const {
+      real g;
+      switch (_norm) {
+      case FULL:
+        return Engine<false, FULL, 1>(_c, x, g);
+      case SCHMIDT:
+      default:
+        return Engine<false, FULL, 1>(_c, x, g);
+      }
+    }
+  private:
+    unsigned _norm;
+    real _c[1];
+  };
+
+  // K7: the eastward wrap test is off by one (ix == _width is not wrapped) before the file position is taken
+  class FixtureRaster {
+  public:
+    FixtureRaster() : _width(2), _height(3), _pos(0) {}
+    int probe(int ix, int iy) const {
+      if (ix < -1 || ix > _width + 1 || iy < 0 || iy >= _height) return 0;
+      if (ix < 0) ix += _width;
+      else if (ix > _width) ix -= _width;
+      filepos(ix, iy);
+      return _pos;
+    }
+  private:
+    void filepos(int ix, int iy) const { _pos = iy * _width + ix; }
+    int _width, _height;
+    mutable int _pos;
+  };
+
 }
